@@ -98,7 +98,11 @@ func ChanTrySend(p *Chan, v unsafe.Pointer, eltSize int) bool {
 	n := p.cap
 	p.mutex.Lock()
 	if n == 0 {
-		if p.getp != chanHasRecv || p.close {
+		if p.close {
+			p.mutex.Unlock()
+			panic(plainError("send on closed channel"))
+		}
+		if p.getp != chanHasRecv {
 			p.mutex.Unlock()
 			return false
 		}
@@ -107,7 +111,11 @@ func ChanTrySend(p *Chan, v unsafe.Pointer, eltSize int) bool {
 		}
 		p.getp = chanNoSendRecv
 	} else {
-		if p.len == n || p.close {
+		if p.close {
+			p.mutex.Unlock()
+			panic(plainError("send on closed channel"))
+		}
+		if p.len == n {
 			p.mutex.Unlock()
 			return false
 		}
